@@ -659,20 +659,11 @@ func lockKeysOf(m map[string]bool) []string {
 func (c *Ctx) hostRootOf(f *ssa.Function) *ssa.Function {
 	f = topFunc(f)
 	for d := 0; d < 4; d++ {
-		if f.Object() == nil || f.Object().Exported() {
+		_, host := c.hostSites(f, false)
+		if host == nil {
 			return f
 		}
-		sites, vals := c.allCallersOf(f)
-		if len(sites) != 1 || len(vals) != 0 {
-			return f
-		}
-		if _, isGo := sites[0].Instr.(*ssa.Go); isGo {
-			return f
-		}
-		if _, isDefer := sites[0].Instr.(*ssa.Defer); isDefer {
-			return f
-		}
-		f = topFunc(sites[0].Fn)
+		f = host
 	}
 	return f
 }
@@ -702,18 +693,11 @@ func (c *Ctx) hostKeyIn(f *ssa.Function, has func(key string) bool) (string, boo
 		if k := funcKey(f); has(k) {
 			return k, true
 		}
-		if f.Object() == nil || f.Object().Exported() {
+		_, host := c.hostSites(f, false)
+		if host == nil {
 			return "", false
 		}
-		sites, vals := c.allCallersOf(f)
-		if len(sites) != 1 || len(vals) != 0 {
-			return "", false
-		}
-		switch sites[0].Instr.(type) {
-		case *ssa.Go, *ssa.Defer:
-			return "", false
-		}
-		f = topFunc(sites[0].Fn)
+		f = host
 	}
 	return "", false
 }
